@@ -210,6 +210,9 @@ func vfC08Scenarios(thorough bool) []*vfGWScenario {
 		Alphabet: []string{"hb", "prunepx:a:t", "prunepx:c:t", "score:a:3", "score:a:1", "score:c:2.5", "graft:a:t", "adv:1100", "adv:4100"}, Depth: d})
 	// a peer under backoff goes away and comes back inside the window (the backoff has to outlive its streams)
 	mk("tight-return", "d2tight", 0, append(append([]string{}, prefix...), "join:t", "hb"), []string{"hb", "prune:a:t", "prune:a:t:60", "disc:a", "conn:a", "sub:a:t", "outreset:a", "graft:a:t", "adv:1100", "leave:t", "join:t"})
+	// leaving, publishing into the topic from outside (fanout) and joining again inside the backoff: the promotion of
+	// the fanout set to the mesh, and its top-up, have to respect the unsubscribe and prune backoffs
+	mk("fanout-return", "d2tight", 0, append(append([]string{}, prefix...), "join:t", "hb"), []string{"leave:t", "lpub:t:p1", "join:t", "hb", "prune:a:t", "prune:b:t:60", "adv:1100", "adv:4100", "adv:14000"})
 	return out
 }
 
